@@ -69,6 +69,14 @@ var propDefs = map[string]*PropDef{
 		},
 		Assume: []string{"map iteration is modelled with a ghost set of delivered keys (every key delivered exactly once)"},
 	},
+	"C09": {
+		ID: "C09", Funcs: "all", Floor: 30,
+		Unmech: []string{
+			"forloop.First / Last over a whole iteration: proved per callback invocation (idx == 1 clears First, idx+1 == count sets Last, otherwise unchanged; initial First && !Last at the IterateOrder call) and per IterateOrder loop (callbacks receive idx = 0,1,2,... and the same count); the induction over the invocation sequence is on paper",
+			"sorted order is delegated to sort.Sort / sort.SliceStable (library, trusted)",
+			"nesting depth: each construct's lemma is independent of where the node sits in the tree",
+		},
+	},
 	"C10": {
 		ID: "C10", Funcs: "all", Floor: 30,
 		Unmech: []string{
